@@ -3,7 +3,7 @@ Pipeline shape, row/column order coherence, overlap rejection, single-pass itera
 
 from __future__ import annotations
 
-from . import _layout, _pipe
+from . import _inst, _layout, _pipe
 from .C01 import atoms_of_desc, materialise_rule, single_pass_rule
 
 
@@ -96,7 +96,7 @@ def check(index, ctx):
                         derivation={"task_autograd": len(task_ag), "jac_autograd": len(jac_ag), "grad_writes": len(gw)})
             if problems:
                 continue
-            _layout.check_layout(ctx, "R2", res)
+            _layout.check_layout(ctx, "R2", res, row_order=lambda run=run: _inst.verdict(index, run.entry, "order", chunk=bool(run.variant.get("chunk"))))
             materialise_rule(ctx, res, "R4", entry)
             # R3 overlap check first
             ov = [e for e in _pipe.evs(res, "set_op") if e["op"] in ("BitAnd", "In") and {tuple(e["left"]), tuple(e["right"])} == {(ta,), (sa,)}]
